@@ -150,21 +150,24 @@ static Reg r_rot("georot", [](const Args& a) {
   if (!(std::fabs(std::hypot(std::hypot(X, Y), Z) - n) <= 16 * EPS * n)) bad("rotate-unrotate", "Rotate changes the length");
 });
 
+// LocalCartesian::IntForward given the object's state: args lat0 lon0 h0 lat lon h; the state (x0 y0 z0 r[9]) and the geocentric image
+// of the point are appended to the line for the model
 static Reg r_loc("locfwd", [](const Args& a) {
   double lat0 = unhx(a[0]), lon0 = unhx(a[1]), h0 = unhx(a[2]), lat = unhx(a[3]), lon = unhx(a[4]), h = unhx(a[5]);
   LocalCartesian l(lat0, lon0, h0, Geocentric::WGS84()); double xc, yc, zc; Geocentric::WGS84().Forward(lat, lon, h, xc, yc, zc);
-  std::string o = "locfwd " + hx(l._x0) + " " + hx(l._y0) + " " + hx(l._z0); for (int i = 0; i < 9; ++i) o += " " + hx(l._r[i]); o += " " + hx(xc) + " " + hx(yc) + " " + hx(zc);
+  std::string o = "locfwd"; for (int i = 0; i < 6; ++i) o += " " + a[i];
+  o += " " + hx(l._x0) + " " + hx(l._y0) + " " + hx(l._z0); for (int i = 0; i < 9; ++i) o += " " + hx(l._r[i]); o += " " + hx(xc) + " " + hx(yc) + " " + hx(zc);
   current_op() = o;
   double x, y, z; l.Forward(lat, lon, h, x, y, z); emit(hx(x) + " " + hx(y) + " " + hx(z));
 });
 
 // the local frame itself: origin = geocentric image of (lat0, lon0, h0), axes = east/north/up AT (lat0, lon0) — also at a pole, where
-// the geocentric origin no longer determines the meridian
+// the geocentric origin no longer determines the meridian.  args: a f lat0 lon0 h0
 static Reg r_locorigin("locorigin", [](const Args& a) {
-  double lat0 = unhx(a[0]), lon0 = unhx(a[1]), h0 = unhx(a[2]);
-  const Geocentric& g = Geocentric::WGS84(); LocalCartesian l(lat0, lon0, h0, g);
+  double ea = unhx(a[0]), ef = unhx(a[1]), lat0 = unhx(a[2]), lon0 = unhx(a[3]), h0 = unhx(a[4]);
+  Geocentric g(ea, ef); LocalCartesian l(lat0, lon0, h0, g);
   double sphi, cphi, slam, clam; Math::sincosd(Math::LatFix(lat0), sphi, cphi); Math::sincosd(lon0, slam, clam);
-  current_op() = "locorigin " + hx(g._a) + " " + hx(g._f) + " " + a[0] + " " + a[1] + " " + a[2] + " " + hx(sphi) + " " + hx(cphi) + " " + hx(slam) + " " + hx(clam);
+  current_op() = "locorigin " + a[0] + " " + a[1] + " " + a[2] + " " + a[3] + " " + a[4] + " " + hx(sphi) + " " + hx(cphi) + " " + hx(slam) + " " + hx(clam);
   std::string o = hx(l._x0) + " " + hx(l._y0) + " " + hx(l._z0); for (int i = 0; i < 9; ++i) o += " " + hx(l._r[i]); emit(o);
   // Forward at the origin returns the identity rotation (the frame of the point coincides with the frame of the origin)
   double x, y, z; std::vector<double> M(9); l.Forward(lat0, lon0, h0, x, y, z, M);
@@ -357,12 +360,13 @@ void gv::generate(const std::string& tier, uint64_t seed) {
     if (i < 3) sample(current_op());
     if (i % 5 == 0) {
       double lat0 = r.range(-90, 90), lon0 = r.range(-180, 180), h0 = r.range(-100, 1e4); if (i % 25 == 0) lat0 = r.pick(std::vector<double>{90, -90, 0});
-      run("locorigin", {hx(lat0), hx(lon0), hx(h0)});
+      run("locorigin", {hx(Constants::WGS84_a()), hx(Constants::WGS84_f()), hx(lat0), hx(lon0), hx(h0)});
       run("locfwd", {hx(lat0), hx(lon0), hx(h0), hx(lat), hx(lon), hx(std::fmin(std::fabs(h), 1e6))});
       run("geoprops", {hx(lat0), hx(lon0), hx(h0), hx(lat), hx(lon), hx(std::fmin(std::fabs(h), 1e6)), hx(r.range(-90, 90)), hx(r.range(-180, 180)), hx(r.range(0, 1e5))});
       // any ellipsoid, special origins (poles, date line, lon0 outside [-180, 180], signed zeros)
       double la0 = r.irange(0, 2) ? r.range(-90, 90) : r.pick(lat0s), lo0 = r.irange(0, 2) ? r.range(-180, 180) : r.pick(lon0s), hh0 = r.irange(0, 3) ? r.range(-100, 1e4) * a / 6.4e6 : r.pick(std::vector<double>{0.0, -0.0, -a / 2, 10 * a});
       double hp = std::fmin(std::fabs(h), 1e6) * a / 6.4e6;
+      run("locorigin", {hx(a), hx(f), hx(la0), hx(lo0), hx(hh0)});
       run("locfwdm", {hx(a), hx(f), hx(la0), hx(lo0), hx(hh0), hx(r.irange(0, 4) ? lat : la0), hx(r.irange(0, 4) ? lon : lo0), hx(r.irange(0, 4) ? hp : hh0)});
       stratum(std::string("locfwdm-") + (std::fabs(la0) == 90 ? "polar-origin" : "generic-origin"));
       double sx = a * std::pow(10.0, r.range(-9, 2)); double lx = sx * r.range(-1, 1), ly = sx * r.range(-1, 1), lz = sx * r.range(-1, 1);
